@@ -3,6 +3,7 @@ package main
 import (
 	"fmt"
 	"go/types"
+	"os"
 	"strings"
 )
 
@@ -36,6 +37,7 @@ type Script struct {
 	decls    []string
 	sigs     map[string]string
 	declared map[string]bool
+	dropped  int
 	facts    []string
 	obls     []*Obligation
 }
@@ -59,6 +61,10 @@ func (s *Script) fact(f string) {
 	if strings.Contains(f, "?") {
 		for _, m := range boundVarRe.FindAllString(f, -1) {
 			if !strings.Contains(f, "("+m+" Int)") && !strings.Contains(f, "("+m+" Bool)") {
+				s.dropped++
+				if os.Getenv("GOVC_DEBUG") != "" {
+					fmt.Fprintf(os.Stderr, "dropped fact with unbound %s: %.300s\n", m, f)
+				}
 				return
 			}
 		}
@@ -438,6 +444,9 @@ func (tr *Tr) storeLeaf(st *State, l Loc, lf leaf, term string) {
 
 // nameTerm introduces a fresh constant equal to term (keeps terms small and shared).
 func (tr *Tr) nameTerm(base, sort, term string) string {
+	if tr.specMode > 0 {
+		return term
+	}
 	tr.fresh++
 	sym := smtName(fmt.Sprintf("%s@%d", base, tr.fresh))
 	tr.sc.declare(sym, "() "+sort)
